@@ -52,7 +52,8 @@ Section Api.
   Proof.
     intros Hids Hok Hg He. split; [apply (marshal_refines t g v e Hok Hg He)|].
     intros rest. apply (unmarshal_refines t g (e ++ rest) v rest Hok Hg).
-    apply (roundtrip nm S Hids tl_fuel t v e rest He).
+    unfold tl_decode. unfold tl_encode in He.
+    exact (roundtrip nm S Hids tl_fuel t v e rest He).
   Qed.
 
   (** ** requests *)
